@@ -305,3 +305,52 @@ def rf18(run, units=('mir', 'gen')):
                                       'branch would test a flag that was never computed' % (f.name, F.src(arg), '/'.join(sorted(names[v] for v in bad))),
                                       line=call['l'])
     return n
+
+
+# ---------------------------------------------------------------------------------------------
+# RF30 single-return invariant of the generator
+# ---------------------------------------------------------------------------------------------
+
+def rf30(run):
+    """the prologue/epilogue generator attaches the epilogue to one return instruction; the basic-block cloning pass is the one
+    place that copies instructions wholesale and must therefore never clone a block that ends in a return"""
+    rule = 'RF30'
+    run.rule(rule, 'generator: clone_bbs definitely skips destination blocks whose last instruction is MIR_RET or MIR_JRET (evaluated over '
+                   'all opcodes), because target_make_prolog_epilog restores the callee-saved registers and the stack pointer before one '
+                   'return instruction only')
+    gen = run.tu('gen')
+    f = gen.func('clone_bbs')
+    run.functions_analysed.add(('gen', f.name))
+    preds = EF.Predicates(gen)
+    codes = dict(gen.enum('MIR_insn_code_t'))
+    copies = [x for x in f.walk() if x['k'] == 'CallExpr' and x.get('callee') == 'MIR_copy_insn']
+    if not copies:
+        raise F.AnalysisBroken('clone_bbs: MIR_copy_insn not found')
+    # skip conditions: if (…) continue;  preceding the copy, inside the same loop
+    skips = []
+    for n in f.walk():
+        if n['k'] == 'IfStmt' and n['c'][1] is not None and F.strip(n['c'][1])['k'] == 'ContinueStmt' and n['l'] < copies[0]['l']:
+            keys = {F.src(x) for x in F.walk(n['c'][0]) if x['k'] == 'MemberExpr' and x['n'] == 'code'}
+            if keys:
+                skips.append((n, sorted(keys)))
+    if not skips:
+        raise F.AnalysisBroken('clone_bbs: no opcode-dependent skip before the copy')
+    for name in ('MIR_RET', 'MIR_JRET'):
+        skipped = False
+        for n, keys in skips:
+            env = {k: codes[name] for k in keys}
+            v = preds.eval(n['c'][0], env, frozenset())
+            if v:
+                skipped = True
+        run.ob(rule, ('skip', name), skipped, {'destination block ends in': name, 'definitely skipped': skipped,
+                                              'skip conditions': [F.src(n['c'][0])[:100] for n, k in skips]})
+        if not skipped:
+            run.violation(rule, f, 'cloning of a block ending in %s' % name,
+                          'clone_bbs can clone a block whose last instruction is %s: the function then has two returns, but the epilogue '
+                          '(restoring callee-saved registers and the stack pointer) is attached to one return only' % name, line=skips[0][0]['l'])
+    # the epilogue site itself: target_make_prolog_epilog looks for the (single) return
+    tm = gen.func('target_make_prolog_epilog')
+    ok = any(x['k'] == 'BinaryOperator' and x['op'] in ('==', '!=') and 'MIR_RET' in F.src(x) for x in tm.walk())
+    run.ob(rule, ('epilogue-anchor',), ok)
+    if not ok:
+        run.analysis_broken(rule, 'target_make_prolog_epilog: search for the return instruction not recognised')
